@@ -240,6 +240,65 @@ func (a *analyzer) optionFacts() (fields []optField, ctx []ctxArg, uriArgs []ctx
 	return
 }
 
+// mutatorCalls: every call, anywhere in to.go, of a method whose name says it mutates its receiver (Add, Remove, Set…,
+// Store, Delete, Clear, Register, Insert, Reset, Swap, AddCheck, Push, Append…) on anything but the converter itself and
+// the document: registries (`c.opts.Metadata`, `core.GlobalRegistry`), schemas, internals. The write-site table sees
+// assignments and builtin / slices / maps calls; a method call that mutates behind an API is invisible to it.
+var mutatorPrefixes = []string{"Add", "Remove", "Set", "Store", "Delete", "Clear", "Register", "Insert", "Reset", "Swap", "Push", "Append", "Put", "Update", "Merge"}
+
+type mutRow struct{ Func, Call, Recv string }
+
+func (a *analyzer) mutatorCalls() []mutRow {
+	var out []mutRow
+	var names []string
+	for n := range a.funcs {
+		names = append(names, n)
+	}
+	sort.Strings(names)
+	for _, fn := range names {
+		fd := a.funcs[fn]
+		if fd.Body == nil {
+			continue
+		}
+		env := a.envOf(fd, false)
+		ast.Inspect(fd.Body, func(n ast.Node) bool {
+			c, ok := n.(*ast.CallExpr)
+			if !ok {
+				return true
+			}
+			sel, ok := c.Fun.(*ast.SelectorExpr)
+			if !ok {
+				return true
+			}
+			isMut := false
+			for _, p := range mutatorPrefixes {
+				if strings.HasPrefix(sel.Sel.Name, p) {
+					isMut = true
+				}
+			}
+			if !isMut {
+				return true
+			}
+			if id, ok := sel.X.(*ast.Ident); ok {
+				if _, isVar := env.vars[id.Name]; !isVar && id.Obj == nil {
+					return true // a package-level function (slices.Insert, …): the write-site table has it
+				}
+			}
+			recv := a.text(sel.X)
+			o := env.origin(sel.X)
+			if strings.HasPrefix(recv, "c.opts") || strings.Contains(recv, "GlobalRegistry") || strings.HasPrefix(recv, "reg") {
+				o = "registry"
+			}
+			if recv == "c" || o == "doc" || o == "fresh" {
+				return true // the converter's own state / the document under construction
+			}
+			out = append(out, mutRow{fn, a.text(c.Fun), o})
+			return true
+		})
+	}
+	return out
+}
+
 func vOriginLean(o string) string {
 	switch {
 	case o == "fresh" || o == "zero":
@@ -289,6 +348,12 @@ func (a *analyzer) emitOptionFacts(b *strings.Builder) error {
 	for i, s := range stores {
 		fmt.Fprintf(b, "  ⟨%s, %s, %s, %s⟩%s\n", q(s.Func), q(s.Field), q(s.Rhs), vOriginLean(s.Origin), comma(i, len(stores)))
 	}
+	b.WriteString("]\n\n/-- every call of a mutating method (Add / Remove / Set… / Store / Delete / …) on anything but the converter and the document -/\ndef mutatorCalls : List (String × String × String) := [")
+	var ms []string
+	for _, m := range a.mutatorCalls() {
+		ms = append(ms, fmt.Sprintf("(%s, %s, %s)", q(m.Func), q(m.Call), q(m.Recv)))
+	}
+	b.WriteString(strings.Join(ms, ", "))
 	b.WriteString("]\n\n")
 	return nil
 }
